@@ -55,6 +55,41 @@ Definition spec_step (c : scfg) (m : smap) (o : op) : smap * result * list cbcal
   | OExists i => (m, RBool (is_some (m !! i)), [])
   end.
 
+(* BeforeChange calls of one operation: made exactly when the operation reaches the
+   listener stage (a mutation of a checking store that is neither ill-typed nor
+   rejected for its id or the (non-)existence of the value) *)
+Definition spec_bc (c : scfg) (nl : nat) (m : smap) (o : op) : list bccall :=
+  if negb (s_checks c) then [] else
+  match o with
+  | OCreate i v e =>
+      if e_wrongtype e then []
+      else if is_nil i && negb (s_genid c) then []
+      else let j := touch c o in
+        if is_nil j then []
+        else match m !! j with
+             | Some _ => []
+             | None => bc_calls nl (e_vetoat e) j None (Some v)
+             end
+  | OUpdate i v e =>
+      if e_wrongtype e then []
+      else match m !! i with
+           | None => []
+           | Some b => bc_calls nl (e_vetoat e) i (Some b) (Some v)
+           end
+  | ODelete i e =>
+      match m !! i with
+      | None => []
+      | Some b => bc_calls nl (e_vetoat e) i (Some b) None
+      end
+  | _ => []
+  end.
+
+(* the value an operation would write *)
+Definition after_of (o : op) : option val :=
+  match o with OCreate _ v _ | OUpdate _ v _ => Some v | _ => None end.
+Definition vetoat_of (o : op) : nat :=
+  match o with OCreate _ _ e | OUpdate _ _ e | ODelete _ e => e_vetoat e | _ => 0%nat end.
+
 (* abstraction: the finite map a reader of the concrete content sees.  Keys not
    under the prefix and the empty key (badger.ErrEmptyKey / mockstore's
    empty-id rule) are invisible.  foldr: the head of the association list wins. *)
